@@ -620,9 +620,6 @@ fn judge_enc(ctx: &Ctx, acc: &mut Acc, case: &Case, ep: &str, why: &[&'static st
     Ok(Err(e)) => {
       let label = err_label(&e);
       acc.out(format!("{ep}:reject{}:{label}", if open { "(open)" } else { "" }));
-      if open && std::env::var_os("C11_DEBUG").is_some() {
-        eprintln!("OPEN-REJECT {label} {}", serde_json::to_string(case).unwrap());
-      }
       if non_policy(&e) {
         acc.nonpolicy.push(format!("{ep}: non-policy error {label}: {case:?}"));
       }
